@@ -720,6 +720,24 @@ feature kern {
     );
 }
 
+#[test]
+fn stat_elided_fallback_name_id_not_defined_in_fea() {
+    // name id 2 is expected to be in the font's name table, not in the FEA
+    let compilation = compile_fea(
+        "\
+table STAT {
+    ElidedFallbackNameID 2;
+    DesignAxis wght 0 { name \"Weight\"; };
+} STAT;
+",
+        "stat_elided_fallback_not_in_fea",
+    );
+    assert_eq!(
+        compilation.stat.unwrap().elided_fallback_name_id,
+        Some(write_fonts::types::NameId::SUBFAMILY_NAME)
+    );
+}
+
 // https://github.com/googlefonts/fontc/issues/1969
 #[test]
 fn remap_name_ids_preserves_cv_null_sentinel() {
